@@ -58,11 +58,25 @@ HEAD_RE = re.compile(r"^(\s*)((?:pub(?:\([a-z]+\))? )?(?:const )?(?:unsafe )?fn\
 RET_RE = re.compile(r"^(\s*(?:pub(?:\([a-z]+\))? )?(?:const )?(?:unsafe )?fn\b.*\)) -> (.+)$")
 
 
+CLO_RE = re.compile(r"^(.*\|) -> (.+) \{$")
+
+
 def normalise(text):
     out = []
-    for line in text.split("\n"):
+    src = text.split("\n")
+    for n, line in enumerate(src):
         if not line.strip():
             continue
+        if line.strip().startswith("__vclo!("):
+            continue
+        nxt = src[n + 1].strip() if n + 1 < len(src) else ""
+        if nxt.startswith("__vclo!("):
+            # R17 closure head: `... |params| -> T {`  ->  `... |params| -> (ret: T)` / `{`
+            c = CLO_RE.match(line)
+            if c:
+                out.append(f"{c.group(1)} -> (ret: {c.group(2)})")
+                out.append(" " * indent_of(line) + "{")
+                continue
         m = HEAD_RE.match(line)
         if m:
             head = m.group(1) + m.group(2)
@@ -74,6 +88,21 @@ def normalise(text):
         else:
             out.append(line)
     return "\n".join(out) + "\n"
+
+
+def unit_chain(unit, seen=None):
+    """the unit and the units it inherits, in extraction order (parents first, each once)"""
+    import tomllib
+    seen = seen if seen is not None else []
+    cfg = tomllib.load(open(os.path.join(UNITS, unit, "unit.toml"), "rb"))
+    out = []
+    for parent in cfg.get("inherit", []):
+        if parent in seen:
+            continue
+        seen.append(parent)
+        out.extend(unit_chain(parent, seen))
+    out.append(unit)
+    return out
 
 
 # --------------------------------------------------------------------------- weaving
